@@ -87,6 +87,15 @@ CLAIMED = {
             "connection attempts / late HTTP/2 streams; judged against the ordering model of shutdown (stop accepting, drain, "
             "cancel at the grace bound, lifespan shutdown, return) with exact virtual instants.",
             "the listener is pre-opened by the harness; 'refused' for a late connection means never accepted by the application"),
+    "C16": ("5/C16", "Differential execution: every tape builds one race-free scenario (HTTP/1 keep-alive and HTTP/2 sessions from the "
+            "C01-C03 generators, the same with a client FIN/RST/close after a quiescent pause at a tape-chosen point, WebSocket "
+            "sessions over both carriers with all closing orders, the C04 malformed catalogue and mutated HTTP/1 pipelines) and runs "
+            "it on the asyncio and on the trio worker with the same simulated kernel and scripts but independent schedules; the "
+            "two histories are reduced to a normal form (scope, merged message sequence and send outcomes per instance; statuses, "
+            "headers without date, bodies, stream ends, GOAWAY and the virtual close instant per connection) and must be equal.",
+            "scenarios are restricted to race-free ones (applications read the request before answering, large client windows and "
+            "socket buffers, client acts after quiescent pauses); the comparison stops just before the harness's own final shutdown; "
+            "which worker is right is not decided"),
     "C18": ("5/C18", "Complete enumeration of every limit value x approach / hit / exceed x arrival shape x worker (h11_max_incomplete_size "
             "with heads in one read, two reads or dribbled, as first or second request; h2_max_concurrent_streams with 0/1/3 excess "
             "streams held open; h2_max_header_list_size with one field, many fields or CONTINUATION; keep_alive_max_requests "
